@@ -423,6 +423,74 @@ func main() {
 			die("%s no longer delegates to pumpOutput", w)
 		}
 	}
+	// Atomic step of the shell senders: several goroutines write on ONE shell stream (stdout pump, stderr pump,
+	// sendExit, sendAck); each sealed message takes the next nonce and the receiver rejects a frame that arrives
+	// after a later one. So in writeEncrypted the Encrypt call and the WriteStreamData call must both happen
+	// inside ONE critical section of ss.writeMu (Lock + deferred Unlock, nothing released in between).
+	{
+		_, fd := findFunc("internal/shell/handler.go", "Handler", "writeEncrypted")
+		isMu := func(e ast.Expr, method string) bool {
+			c, ok := e.(*ast.CallExpr)
+			if !ok {
+				return false
+			}
+			s, ok := c.Fun.(*ast.SelectorExpr)
+			if !ok || s.Sel.Name != method {
+				return false
+			}
+			in, ok := s.X.(*ast.SelectorExpr)
+			return ok && in.Sel.Name == "writeMu"
+		}
+		held, deferred := false, false
+		locks, sealHeld, sendHeld, seals, sends := 0, 0, 0, 0, 0
+		for _, st := range fd.Body.List {
+			if es, ok := st.(*ast.ExprStmt); ok && isMu(es.X, "Lock") {
+				held = true
+				locks++
+				continue
+			}
+			if es, ok := st.(*ast.ExprStmt); ok && isMu(es.X, "Unlock") {
+				held = false
+				continue
+			}
+			if ds, ok := st.(*ast.DeferStmt); ok && isMu(ds.Call, "Unlock") {
+				deferred = true
+				continue
+			}
+			ast.Inspect(st, func(n ast.Node) bool {
+				if _, ok := n.(*ast.FuncLit); ok {
+					return false
+				}
+				c, ok := n.(*ast.CallExpr)
+				if !ok {
+					return true
+				}
+				if isMu(c, "Unlock") { // released inside a nested block
+					held = false
+				}
+				if s, ok := c.Fun.(*ast.SelectorExpr); ok {
+					switch s.Sel.Name {
+					case "Encrypt":
+						seals++
+						if held {
+							sealHeld++
+						}
+					case "WriteStreamData":
+						sends++
+						if held {
+							sendHeld++
+						}
+					}
+				}
+				return true
+			})
+		}
+		one := locks == 1 && deferred && seals == 1 && sends == 1 && sealHeld == 1 && sendHeld == 1
+		fmt.Fprintf(&sb, "/-- internal/shell/handler.go (Handler).writeEncrypted: ss.writeMu acquisitions, Encrypt calls (under the lock), WriteStreamData calls (under the lock) -/\n")
+		fmt.Fprintf(&sb, "def shellWriteLocks : Nat := %d\ndef shellSealCalls : Nat := %d\ndef shellSealUnderLock : Nat := %d\ndef shellSendCalls : Nat := %d\ndef shellSendUnderLock : Nat := %d\n",
+			locks, seals, sealHeld, sends, sendHeld)
+		fmt.Fprintf(&sb, "/-- Encrypt and WriteStreamData of one shell message happen inside ONE critical section of ss.writeMu -/\ndef shellSealAndSendAtomic : Bool := %v\n", one)
+	}
 	sb.WriteString("end MM.Gen.C07Ast\n")
 	fmt.Print(sb.String())
 }
